@@ -464,6 +464,7 @@ def rerun_and_filter(rec):
     """Universal replayer: re-run the property's quick check steps and keep the violation with the same key."""
     pid = rec["property"]
     vs = []
+    same_tag = []
     for st in PROPS[pid]["steps"]:
         try:
             r = st(pid, "quick", 0)
@@ -471,7 +472,10 @@ def rerun_and_filter(rec):
             continue
         for _, rep in (r if isinstance(r, list) else [r]):
             vs.extend(v for v in rep.get("violations", []) if v.get("key") == rec.get("key"))
-    return {"violations": vs[:1]}
+            same_tag.extend(v for v in rep.get("violations", []) if v.get("tag") == rec.get("tag"))
+    # a defect whose victim depends on scheduling (state left behind on a worker thread) hits another
+    # definition in every run: the same KIND of violation in the full re-run confirms it
+    return {"violations": (vs or same_tag)[:1]}
 
 
 def confirm_replay(path):
